@@ -32,6 +32,7 @@ const (
 	PField         // field of a heap object
 	PElem          // element of a slice backing array
 	PGlobal        // package-level variable
+	PLocalField    // field (path) of a non-escaping local struct variable kept by value
 )
 
 type PtrV struct {
@@ -44,6 +45,7 @@ type PtrV struct {
 	Idx    *Term       // PElem: absolute index into the backing array
 	Elem   types.Type  // pointee type
 	Global *ssa.Global // PGlobal
+	Path   []int       // PLocalField: field indices from the local struct value down to the addressed field
 }
 
 type FuncV struct {
@@ -132,7 +134,6 @@ func (x *Exec) freshValue(hint string, t types.Type) Value {
 		return sv
 	case *types.Pointer:
 		r := x.fresh(hint, SInt)
-		x.assume(mkCmp(">=", r, mkInt(0)))
 		return &PtrV{Kind: PRef, Ref: r, Elem: u.Elem()}
 	case *types.Tuple:
 		var tv TupleV
